@@ -9,6 +9,8 @@ R15.1  context-sensitive taint: every hole of every emitted template is classifi
          DOCSTRING  backslash *and* triple-quote escaping (or the central escaping of DocumentationWriter.render_docstring)
          COMMENT    every line boundary removed (splitlines()-join or replacement of \\n and \\r ...)
 R15.2  documentation blocks: values handed to DocumentationBlock(...) land in a docstring; render_docstring must escape
+R15.4  the sanitizers that are trusted in CODE positions (sanitize_method_name / _class_name / _module_name) produce
+       valid identifiers for every input string                                              [abstract interpretation shared with C20]
 R15.3  emitted code is never re-split with str.splitlines() outside docstring/comment assembly (splitlines also splits at
        U+2028, U+0085, FF, VT ..., which Python's tokenizer does not treat as line ends)
 """
@@ -426,6 +428,20 @@ def run(repo: Repo, rep: Report, tier: str) -> None:
     rep.require(n_holes >= 350, f"R15.1: only {n_holes} template holes found (floor 350)")
     rep.require(by_ctx[STRING] >= 15 and by_ctx[DOCSTRING] >= 10 and by_ctx[COMMENT] >= 3, f"R15.1: context classification collapsed: {by_ctx}")
 
+    # ---------------------------------------------------------------- R15.4 the CODE-context sanitizers really produce identifiers
+    # (string-shape abstract interpretation of C20 applied to the two sanitizers that guard CODE positions for free text:
+    #  property / parameter names -> sanitize_method_name, schema names -> sanitize_class_name / sanitize_module_name)
+    from rules import c20
+
+    ns = repo.module("core.utils").classes.get("NameSanitizer")
+    if ns is None:
+        raise AnalysisError("anchor vanished: NameSanitizer")
+    for fname in ("sanitize_method_name", "sanitize_class_name", "sanitize_module_name"):
+        f = ns.methods.get(fname)
+        if f is None:
+            raise AnalysisError(f"anchor vanished: NameSanitizer.{fname}")
+        c20._shape_rule(f, c20.SANITIZERS[fname], _Relabel(rep, "R15.4"))
+
     # ---------------------------------------------------------------- R15.3 re-splitting of emitted code
     allowed_splitlines = {
         # (function, reason): assembling docstring/comment text, where every resulting line stays inside that docstring/comment
@@ -511,3 +527,23 @@ def _render_docstring_escapes(repo: Repo) -> Set[str]:
         if tail_ok:
             esc |= got
     return esc
+
+
+class _Relabel:
+    def __init__(self, rep, rule):
+        self.rep, self.rule = rep, rule
+
+    def ok(self, rule, *a, **k):
+        self.rep.ok(self.rule, *a, **k)
+
+    def violation(self, rule, *a, **k):
+        self.rep.violation(self.rule, *a, **k)
+
+    def require(self, *a, **k):
+        self.rep.require(*a, **k)
+
+    def error(self, *a, **k):
+        self.rep.error(*a, **k)
+
+    def count(self, *a, **k):
+        pass
